@@ -145,7 +145,9 @@ def correspondence(rep, ctx):
                     fail(desc, f"raised {type(e).__name__}: {e}")
 
     # ---- 3. half-life queries in every unit; halving
-    sample = radio if thorough else r.sample(radio, 120)
+    common_units = {"s", "m", "h", "d", "y"}
+    unusual = [i for i in radio if str(dd.hldata[i][1]) not in common_units]      # e.g. Ra-219 (ms), Rn-215 (μs)
+    sample = radio if thorough else list(dict.fromkeys(unusual + r.sample(radio, 120)))
     for i in sample:
         nm = view.names[i]
         hl_s = 1 / view.rate[i]                      # exact, from the stored (value, unit) pair
